@@ -18,7 +18,7 @@ git checkout -q -- pyteal feature_gates 2>/dev/null
 /venv/bin/python demo.py > $OUT/demo_without.log 2>&1; WITHOUT=$?
 git apply $OUT/patch.diff
 # suite with the change
-timeout 3000 /venv/bin/python -m pytest -q -p no:cacheprovider --timeout=900 -n 16 2>&1 | grep -E "^(FAILED|ERROR)" | sed 's/ - .*//' | sort > $OUT/suite_fail.txt
+timeout 1200 /venv/bin/python -m pytest -q -p no:cacheprovider --timeout=300 -n 12 2>&1 | grep -E "^(FAILED|ERROR)" | sed 's/ - .*//' | sort > $OUT/suite_fail.txt
 CAND=$(comm -23 $OUT/suite_fail.txt /var/tmp/base_fail.txt | grep -v "sourcemap_test.py::test_no_regression\|test_sourcemap_fails_because_not_enabled" | sed 's/^FAILED //;s/^ERROR //')
 NEWFAIL=""
 for t in $CAND; do
